@@ -234,26 +234,32 @@ def tokenize(asts, s):
 
 
 # ---------------------------------------------------------------------------
-def selftest(asts, alphabet="abcx*\n", maxlen=3, long_alphabet="ab", long_len=5):
-    """compare the matcher with Python's re.fullmatch on concrete strings; returns list of mismatches"""
+def selftest_strings(alphabet="abcx*\n", maxlen=3, long_alphabet="ab", long_len=5):
     import itertools
     strings = [""]
     for n in range(1, maxlen + 1):
         strings += ["".join(t) for t in itertools.product(alphabet, repeat=n)]
     for n in range(maxlen + 1, long_len + 1):
         strings += ["".join(t) for t in itertools.product(long_alphabet, repeat=n)]
-    bad = []
-    for ast in asts:
-        txt = render(ast)
-        try:
-            rx = re.compile(txt, re.DOTALL)
-        except re.error as e:
-            bad.append((txt, None, "re.error: %s" % e))
-            continue
-        for s in strings:
-            want = rx.fullmatch(s) is not None
-            got = bool(in_language(ast, s))
-            if want != got:
-                bad.append((txt, s, "re=%s regexsem=%s" % (want, got)))
-                break
-    return bad
+    return strings
+
+
+def selftest_one(ast, strings):
+    """compare the matcher with Python's re.fullmatch(text, s, re.DOTALL) on concrete strings;
+    returns None or (text, string, description) of the first mismatch"""
+    txt = render(ast)
+    try:
+        rx = re.compile(txt, re.DOTALL)
+    except re.error as e:
+        return (txt, None, "re.error: %s" % e)
+    for s in strings:
+        want = rx.fullmatch(s) is not None
+        got = bool(in_language(ast, s))
+        if want != got:
+            return (txt, s, "re=%s regexsem=%s" % (want, got))
+    return None
+
+
+def selftest(asts, **kw):
+    strings = selftest_strings(**kw)
+    return [b for b in (selftest_one(a, strings) for a in asts) if b]
